@@ -254,7 +254,7 @@ func runLockLifeProcs(hist, sa, ua string, maxWait time.Duration) lifeResult {
 	if !ok1 || !ok2 || s == u {
 		return lifeResult{out: "bad-args"}
 	}
-	tmp, err := os.MkdirTemp("", "verif-c17lp-")
+	tmp, err := os.MkdirTemp(lifeTmpBase(), "verif-c17lp-")
 	if err != nil {
 		panic("harness: " + err.Error())
 	}
